@@ -25,10 +25,12 @@ fn rsca_text(groups: &[RuleGroup], layout: usize) -> String {
 fn wsca_text(words: &[(String, Option<&str>)]) -> String {
     words.iter().map(|(w, c)| match c { Some(c) => format!("{}    # {}", w, c), None => w.clone() }).collect::<Vec<_>>().join("\n")
 }
-fn alias_text(into: &[String], from: &[String], sections: u8) -> String {
+fn alias_text(into: &[String], from: &[String], sections: u8, layout: usize) -> String {
+    // alias lines are indented in the same layouts in which rules are (bit 1)
+    let ind = if layout & 1 != 0 { "    " } else { "" };
     let mut s = String::new();
-    if sections & 1 != 0 { s += "@into\n"; for l in into { s += &format!("    {}\n", l); } }
-    if sections & 2 != 0 { s += "@from\n"; for l in from { s += &format!("    {}\n", l); } }
+    if sections & 1 != 0 { s += "@into\n"; for l in into { s += &format!("{}{}\n", ind, l); } }
+    if sections & 2 != 0 { s += "@from\n"; for l in from { s += &format!("{}{}\n", ind, l); } }
     s
 }
 fn lib_run(p: &Project) -> Result<Vec<String>, String> {
@@ -41,11 +43,13 @@ fn projects(thorough: bool) -> Vec<(Project, Vec<(String, Option<&'static str>)>
     let rule_sets: Vec<Vec<&str>> = vec![vec!["p > b / V_V"], vec!["t > d / V_V", "a > e / _#"], vec!["[+cons, -voice] > [+voice] / _$"]];
     let descs = ["", "one line", "first line\nsecond line", "first line\n\nthird line after an empty one"];
     let word_lists: Vec<Vec<(String, Option<&'static str>)>> = vec![
-        vec![("pa.ta".into(), None)],
+        vec![("pa.ta".into(), None), ("pa\u{303}.ta".into(), None)],
         vec![("a.pa".into(), Some("gloss")), ("ta.ta pa".into(), None), ("".into(), Some("only a comment")), ("ˈpa.pa".into(), None)],
         vec![("".into(), None), ("pat".into(), None), ("".into(), None), ("ka.ta".into(), Some("x # y"))],
     ];
-    let aliases: Vec<(Vec<&str>, Vec<&str>, u8)> = vec![(vec![], vec![], 0), (vec!["q > k"], vec![], 1), (vec![], vec!["b > B", "$ > *"], 2), (vec!["q > k", "tt > t:[+long]"], vec!["d > D"], 3)];
+    let aliases: Vec<(Vec<&str>, Vec<&str>, u8)> = vec![(vec![], vec![], 0), (vec!["q > k"], vec![], 1), (vec![], vec!["b > B", "$ > *"], 2), (vec!["q > k", "tt > t:[+long]"], vec!["d > D"], 3),
+        // alias lines that begin with a named escape (`@{..}`), next to the `@into` / `@from` section tags
+        (vec!["@{tilde} > n", "q > k"], vec!["d > D"], 3), (vec!["x > k", "@{acute}a > a:[+stress]"], vec![], 1)];
     let mut out = vec![];
     let ngroups = if thorough { 3 } else { 2 };
     // every combination of (name, rules, description) per group for up to ngroups groups, cycling the rest
@@ -81,7 +85,7 @@ fn project_case(n: usize, p: &Project, wl: &[(String, Option<&str>)], sections: 
     let case = || json!({"kind": "project", "n": n, "layout": layout});
     sb.write("in.rsca", &rsca_text(&p.groups, layout));
     sb.write("in.wsca", &wsca_text(wl));
-    if sections != 0 { sb.write("in.alias", &alias_text(&p.into, &p.from, sections)); }
+    if sections != 0 { sb.write("in.alias", &alias_text(&p.into, &p.from, sections, layout)); }
     // the harness's own readers must read the files back as the model (guards the generator)
     let rd_groups = formats::parse_rsca(&rsca_text(&p.groups, layout));
     if rd_groups.iter().map(|g| (&g.name, &g.rule, &g.description)).collect::<Vec<_>>() != p.groups.iter().map(|g| (&g.name, &g.rule, &g.description)).collect::<Vec<_>>() { a.viols.push(Viol { key: "MACHINERY-generator".into(), desc: format!("harness reader disagrees with generator for layout {}", layout), case: case() }); return; }
@@ -169,7 +173,7 @@ pub fn run() -> i32 {
     let mut r = Report::new("C19");
     if !cli_available() { r.machinery_errors.push(format!("{} not built", CLI)); return r.finish(); }
     let thorough = r.thorough();
-    r.rule = "every generated project (1-2 (3) rule groups x name {empty, word, words with punctuation} x 1-2 rules x description {none, one line, two lines, three lines with an empty one in the middle}; word lists with comments, comment-only and blank lines, multi-word lines; alias files with neither / either / both sections) serialised to .rsca in every documented layout (indent, blank line between rules, blank line between groups, space after @/#): the real `asca` binary is run in a fresh directory: `run -o` output == asca::run(model), also with the project given as json (`-j`, with and without `-w`); `conv asca` json == model; json -> `conv json` -> files -> `conv asca` -> json is the identity; running the converted files gives the same words. Plus the .rsca reader as a line state machine: every sequence of <= N line kinds {@name, #desc, blank, rule, indented rule, bare #}: conv asca . conv json . conv asca == conv asca, and agreement with the manual's reading on documented layouts. Non-trivial = comparisons that held.".into();
+    r.rule = "every generated project (1-2 (3) rule groups x name {empty, word, words with punctuation} x 1-2 rules x description {none, one line, two lines, three lines with an empty one in the middle}; word lists with comments, comment-only and blank lines, multi-word lines; alias files with neither / either / both sections, lines that begin with a named escape `@{..}`, indented and not) serialised to .rsca in every documented layout (indent, blank line between rules, blank line between groups, space after @/#): the real `asca` binary is run in a fresh directory: `run -o` output == asca::run(model), also with the project given as json (`-j`, with and without `-w`); `conv asca` json == model; json -> `conv json` -> files -> `conv asca` -> json is the identity; running the converted files gives the same words. Plus the .rsca reader as a line state machine: every sequence of <= N line kinds {@name, #desc, blank, rule, indented rule, bare #}: conv asca . conv json . conv asca == conv asca, and agreement with the manual's reading on documented layouts. Non-trivial = comparisons that held.".into();
     let projs = projects(thorough);
     let layouts: Vec<usize> = if thorough { (0..16).collect() } else { vec![0, 1, 7, 13] };
     let jobs: Vec<(usize, usize)> = (0..projs.len()).flat_map(|i| layouts.iter().map(move |l| (i, *l))).collect();
